@@ -212,6 +212,7 @@ CHECKS["C17"] = dict(
     level_note="'Any byte string' is covered through these closed families only. The pinned list of secret paths is /verif/harness/config/secret_paths.golden (generated from the pinned tree).",
     assumptions=E4_ASSUME,
     units=[dict(pkg="config", test="TestVerifC17", shards_quick=8, shards_thorough=16, budget_quick=200, budget_thorough=1500),
+           dict(pkg="config", test="TestVerifC17Pure", shards_quick=1, shards_thorough=1, budget_quick=60, budget_thorough=300),
            dict(pkg="app", test="TestVerifC17App", shards_quick=8, shards_thorough=16, budget_quick=200, budget_thorough=1500)],
 )
 
